@@ -26,7 +26,8 @@ func TestVerif_C20_ControlledSolo(t *testing.T) {
 			locals[1].Kind = simKindHost
 		}
 		eps := []soloEpSpec{{Typ: CandidateTypeHost}, {Typ: CandidateTypeRelay}}
-		cfg := simAgentConfig{controlling: false, lite: lite, maxBinding: 7, disconnected: time.Hour, keepalive: 2 * time.Second, explicitTimeout: true, renomination: renomEnabled}
+		cfg := simAgentConfig{controlling: false, lite: lite, maxBinding: 7, disconnected: time.Hour, keepalive: 2 * time.Second, explicitTimeout: true, renomination: renomEnabled,
+			checkPriority: rapid.IntRange(0, 2).Draw(rt, "useCandidateCheckPriority") == 0}
 		s, err := newSoloSim(cfg, locals, eps)
 		if err != nil {
 			rt.Fatalf("harness: %v", err)
@@ -274,7 +275,9 @@ func TestVerif_C20_Duo(t *testing.T) {
 			}
 		}
 		stride := rapid.SampledFrom([]uint32{0, 0, 2}).Draw(rt, "wideValueGenerator")
-		d, err := newDuoSim(c, func(_ int, cfg *simAgentConfig) { cfg.nomStride = stride })
+		// (the option that makes plain nominations respect pair priorities says nothing about renominations)
+		checkPrio := rapid.IntRange(0, 2).Draw(rt, "useCandidateCheckPriority") == 0
+		d, err := newDuoSim(c, func(_ int, cfg *simAgentConfig) { cfg.nomStride = stride; cfg.checkPriority = checkPrio })
 		if err != nil {
 			rt.Fatalf("harness: %v", err)
 		}
